@@ -273,6 +273,55 @@ def evaluate_stack(spec):
     return r
 
 
+def evaluate_nonce(spec):
+    """spec = [largest, nbytes, truncated, srv, suite index]: the number reconstructed from (largest, truncated) is handed to the session's
+    AEAD exactly as decrypt_packet does (bytes returned by get_full_packet_number -> QuicDecryptor.decrypt); the ciphertext was sealed by
+    the reference with nonce = IV xor the A.3 number (RFC 9001 5.3), so only the right 62-bit number in the nonce opens it"""
+    from cryptography.hazmat.primitives.ciphers.aead import AESGCM, AESCCM, ChaCha20Poly1305
+    from tlexport.quic.quic_decryptor import QuicDecryptor
+    from tlexport.quic.quic_packet import QuicPacketType
+    largest, nbytes, truncated, srv, si = spec
+    cls, klen = [(AESGCM, 16), (AESGCM, 32), (ChaCha20Poly1305, 32), (AESCCM, 16)][si % 4]
+    want = rfc_decode_pn(largest, truncated, 8 * nbytes)
+    key_s, key_c = bytes(range(klen)), bytes(range(1, klen + 1))
+    iv_s, iv_c = bytes(range(100, 112)), bytes(range(50, 62))
+    key, iv = (key_s, iv_s) if srv else (key_c, iv_c)
+    nonce = (int.from_bytes(iv, "big") ^ want).to_bytes(12, "big")
+    aad = b"\x40" + truncated.to_bytes(nbytes, "big")
+    pt = b"stream data %d" % want
+    ct = cls(key).encrypt(nonce, pt, aad)
+    qs = _session()
+    _set_largest(qs, "RTT_1", srv, largest)
+    p = _Stub()
+    p.isserver, p.packet_type = bool(srv), QuicPacketType.RTT_1
+    p.packet_num = truncated.to_bytes(nbytes, "big")
+    try:
+        pn_bytes = qs.get_full_packet_number(p)
+        got = QuicDecryptor([key_s, iv_s, key_c, iv_c], cls, early=False).decrypt(ct, pn_bytes, aad, bool(srv))
+    except Exception as e:  # noqa
+        return {"sig": "nonce: packet sealed with the A.3 packet number is not opened (%s)" % type(e).__name__,
+                "detail": f"largest={largest} len={nbytes} truncated={truncated} -> {want}: {e}", "nontrivial": True}
+    sig = None if got == pt else "nonce: wrong plaintext"
+    return {"sig": sig, "detail": f"{spec}", "nontrivial": True, "key": f"n{largest}/{nbytes}/{truncated}/{si % 4}/{srv}",
+            "labels": ["nonce", "mag:2^%d" % largest.bit_length(), "len%d" % nbytes]}
+
+
+def nonce_specs():
+    out = []
+    i = 0
+    for e in (0, 7, 8, 15, 16, 24, 31, 32, 33, 40, 48, 53, 56, 61):
+        for d in (-2, 0, 1):
+            L = max(0, (1 << e) + d)
+            if L >= (1 << 62):
+                continue
+            for n in (1, 2, 3, 4):
+                for t in ((L + 1) & ((1 << 8 * n) - 1), (L + 3) & ((1 << 8 * n) - 1), 0, (1 << 8 * n) - 1):
+                    out.append([L, n, t, i & 1, i // 2])
+                    i += 1
+    out += [[(1 << 62) - 2, 4, ((1 << 62) - 1) & 0xFFFFFFFF, 0, 0], [(1 << 62) - 2, 1, 0xFF, 1, 2]]
+    return out
+
+
 def stack_specs():
     import scenario
     out = []
@@ -293,6 +342,7 @@ def stages(tier):
     quick = tier == "quick"
     return [
         Stage("through-the-stack", evaluate_stack, specs=stack_specs()),
+        Stage("number-in-the-nonce", evaluate_nonce, specs=nonce_specs(), chunksize=64),
         Stage("boundaries", evaluate, specs=boundary_specs(full=not quick), chunksize=4096),
         Stage("random", evaluate, strategy=lambda t: random_case(), examples=60000 if quick else 2000000, shrink=True),
         machine_stage("histories", make_machine, runs=1600 if quick else 100000, steps=40, evaluate=replay_trace),
@@ -300,7 +350,9 @@ def stages(tier):
 
 
 RULE = ("stage through-the-stack: real protected packets (2 suites x Retry x skipped packet numbers in every space x encoded lengths) through "
-        "tlexport.main, the packet number given to the AEAD compared with the sender's for every packet; then direct calls of the packet-number "
+        "tlexport.main, the packet number given to the AEAD compared with the sender's for every packet; stage number-in-the-nonce: "
+        "for largest around 2^0..2^61 and all lengths a packet sealed by the reference with nonce = IV xor the A.3 number must be opened by the "
+        "session's reconstruction + QuicDecryptor (4 AEADs); then direct calls of the packet-number "
         "reconstruction on a stub session: (largest, length, truncated) enumerated around every window / "
         "half-window / 2^62 boundary at magnitudes 2^0..2^62 for all four lengths, random elsewhere; plus rule-based histories (gaps, late "
         "arrivals, >2^53 jumps, further connections) over 4 packet types x 2 directions with an RFC A.3 model per (connection, space, direction).  Non-trivial: the candidate "
